@@ -224,6 +224,20 @@ fn workload(m: &mut Mon, bits: usize) {
         for e in [0usize, 1, 2, 3, crit.saturating_sub(1), crit, crit + 1, crit2.saturating_sub(1), crit2, crit2 + 1, bits - 1, bits, bits + 1] {
             m.case("pow", bits, vec![au(&b), au(&gen::small(e as u64, bits))]);
         }
+        // exponents around the native word sizes: anything that multiplies or adds the exponent in a machine
+        // integer overflows there
+        for e in [1u64 << 31, (1 << 32) - 1, 1 << 32, 1 << 62, (1 << 63) - 1, 1 << 63, (1 << 63) + 1, u64::MAX / 7, u64::MAX / 3, u64::MAX - 1, u64::MAX] {
+            if bits >= 64 || e >> bits == 0 {
+                m.case("pow", bits, vec![au(&b), au(&gen::small(e, bits))]);
+            }
+        }
+        if bits > 64 {
+            let mut e = gen::zero(bits);
+            e[1] = 1;
+            m.case("pow", bits, vec![au(&b), au(&e)]);
+            e[0] = 1;
+            m.case("pow", bits, vec![au(&b), au(&e)]);
+        }
         m.case("pow", bits, vec![au(&b), au(&gen::hostile(&mut r, bits))]);
         m.case("pow", bits, vec![au(&b), au(&gen::max(bits))]);
         m.case("pow", bits, vec![au(&b), au(&gen::pow2(r.below(bits), bits))]);
@@ -281,19 +295,37 @@ fn workload(m: &mut Mon, bits: usize) {
         m.case("log", bits, vec![au(v), au(&gen::max(bits))]);
         m.case("log", bits, vec![au(v), au(v)]);
     }
-    // powers of ten and neighbours for log10
-    let mut p = BigUint::one();
-    while big::fits(&p, bits) {
-        for d in [-1i32, 0, 1] {
-            let v = if d < 0 { if p.is_one() { BigUint::zero() } else { &p - 1u8 } } else { &p + d as u32 };
-            if let Some(v) = fit(&v, bits) {
-                m.case("log2_10", bits, vec![au(&v)]);
+    // every power of ten (log10, and log with base 10) and every power of three and seven that fits, with both
+    // neighbours: an estimate that is off by one is off on a thin band next to a power, at a few exponents only
+    for bsmall in [10u32, 3, 7] {
+        let b = gen::small(u64::from(bsmall), bits);
+        let mut p = BigUint::one();
+        while big::fits(&p, bits) {
+            if m.keep() {
+                for d in [-1i32, 0, 1] {
+                    let v = if d < 0 { if p.is_one() { BigUint::zero() } else { &p - 1u8 } } else { &p + d as u32 };
+                    if let Some(v) = fit(&v, bits) {
+                        if bsmall == 10 {
+                            m.case("log2_10", bits, vec![au(&v)]);
+                        }
+                        if big::fits(&BigUint::from(bsmall), bits) {
+                            m.case("log", bits, vec![au(&v), au(&b)]);
+                        }
+                    }
+                }
             }
+            p *= bsmall;
         }
-        p *= 10u8;
-        if bits > 1024 && r.chance(2, 3) {
-            p *= 10u8;
+    }
+    // all-ones values of every bit length (the top of each band [2^(L-1), 2^L))
+    for len in 1..=bits {
+        if bits > 1024 && len % 3 != 0 && len + 70 < bits {
+            continue;
         }
+        if !m.keep() {
+            continue;
+        }
+        m.case("log2_10", bits, vec![au(&gen::ones(len, bits))]);
     }
     // ---- root: every degree 0..=BITS+2 on boundary-ish values, perfect powers k^d and neighbours
     let degrees: Vec<usize> = if bits <= 257 { (0..=bits + 2).collect() } else {
